@@ -39,7 +39,7 @@ def param_sets(tier, seed):
     """list of dicts: blocs, slate_to_candidates, bloc_voter_prop, cohesion, supports (bloc -> slate -> {cand: support})"""
     rng = random.Random(seed)
     out = []
-    props_opts = {1: [{"W": 1.0}], 2: [{"W": 0.7, "C": 0.3}, {"W": 0.5, "C": 0.5}, {"W": 0.9, "C": 0.1}]}
+    props_opts = {1: [{"W": 1.0}], 2: [{"W": 0.7, "C": 0.3}, {"W": 0.5, "C": 0.5}, {"W": 0.9, "C": 0.1}, {"W": 0.3, "C": 0.7}]}
     coh_opts = [0.8, 0.6, 1.0, 0.3, 0.0]
     supp_vals = [0, 0.1, 1, 3, 0.02]
     for nb in (1, 2):
